@@ -34,10 +34,26 @@ def isDefused (m : Mode) (b : BaseClass) : Bool :=
 
 /-! ### open(): which way the source is defused -/
 
-/-- `isinstance(fp, io.RawIOBase)` / `io.BufferedIOBase` / neither (text streams, response wrappers) -/
+/-- `isinstance(fp, io.RawIOBase)` / `io.BufferedIOBase` / `io.TextIOBase` / none of them (response
+    wrappers such as urllib's addinfourl, duck-typed file objects) -/
 inductive IoKind where
-  | raw | buffered | other
+  | raw | buffered | text | other
   deriving DecidableEq, Repr
+
+/-- Which of the two repairs of findings C13-F2 / C13-F3 the tree under check carries (detected by the
+    harness on the real classes, never assumed):
+    notes/fixes/C13-defusable-reader-grows-during-scan.patch  → `growBuf`
+    notes/fixes/C13-text-stream-defusable-reader.patch        → `wrapText` (and `growText`). -/
+structure Variant where
+  growBuf : Bool     -- DefusableReader keeps every byte it reads until the first seek()
+  wrapText : Bool    -- open()/defuse_xml wrap a non-seekable io.TextIOBase in DefusableTextReader
+  growText : Bool    -- DefusableTextReader keeps every character it reads until the first seek()
+  deriving DecidableEq, Repr
+
+/-- the tree as pinned (streams.py / sax.py / xml_resource.py without the two patches) -/
+def Variant.current : Variant := ⟨false, false, false⟩
+/-- the tree with both patches -/
+def Variant.repaired : Variant := ⟨true, true, true⟩
 
 structure Chan where
   seekable : Bool      -- fp.seekable()
@@ -51,35 +67,57 @@ inductive Plan where
   | rewind          -- defuse_xml(fp): scan, then fp.seek(0)
   | wrapRaw         -- defuse_xml: DefusableReader(io.BufferedReader(fp)), scan, seek(0)   (sax.py:57-61, fix 1d3fb41)
   | wrapBuffered    -- defuse_xml: DefusableReader(fp), scan, seek(0)
+  | wrapText        -- defuse_xml: DefusableTextReader(fp), scan, seek(0)   (only with the C13-F3 repair)
   | secondOpen      -- a second stream is opened from the URL and scanned (rewind=False)
   | refuse          -- XMLResourceOSError "can't defuse ... not seekable"
   deriving DecidableEq, Repr
 
+/-- the streams `defuse_xml` can wrap in a replay reader (sax.py:56-75; with the C13-F3 repair also
+    text streams) -/
+def wrappable (v : Variant) (io : IoKind) : Bool :=
+  io == .raw || io == .buffered || (v.wrapText && io == .text)
+
 /-- xml_resource.py:472-493 with sax.py:56-75 inlined
-    (`fp.seekable() or isinstance(fp, (RawIOBase, BufferedIOBase)) and (opener is None or url is None)`) -/
-def plan (m : Mode) (b : BaseClass) (ch : Chan) : Plan :=
+    (`fp.seekable() or isinstance(fp, (RawIOBase, BufferedIOBase[, TextIOBase])) and (opener is None or url is None)`) -/
+def plan (v : Variant) (m : Mode) (b : BaseClass) (ch : Chan) : Plan :=
   if !isDefused m b then .noDefuse
-  else if ch.seekable || ((ch.io == .raw || ch.io == .buffered) && (!ch.hasOpener || !ch.hasUrl)) then
+  else if ch.seekable || (wrappable v ch.io && (!ch.hasOpener || !ch.hasUrl)) then
     if ch.seekable then .rewind
     else if ch.io == .raw then .wrapRaw
-    else .wrapBuffered
+    else if ch.io == .buffered then .wrapBuffered
+    else .wrapText
   else if ch.hasUrl then .secondOpen
   else .refuse
 
+/-- the plans that go through a replay reader -/
+def Plan.wraps : Plan → Bool
+  | .wrapRaw | .wrapBuffered | .wrapText => true
+  | _ => false
+
+/-- whether the replay reader of a plan keeps what it reads until the first seek() -/
+def growOf (v : Variant) : Plan → Bool
+  | .wrapRaw => v.growBuf
+  | .wrapBuffered => v.growBuf
+  | .wrapText => v.growText
+  | _ => false
+
 /-! ### DefusableReader over a non-seekable buffered stream -/
 
-/-- `buf` = the initial buffer (never changes), `rest` = what the underlying stream has not
-    delivered yet, `pos` = `_pos`. -/
+/-- `buf` = `_buffer` (the initial buffer; with the C13-F2 repair it grows while `grow`), `rest` = what
+    the underlying stream has not delivered yet, `pos` = `_pos`, `grow` = `_growing` (always false on
+    the tree without the repair).  The same structure models DefusableTextReader (units = characters). -/
 structure Reader where
   buf : List Nat
   rest : List Nat
   pos : Nat
+  grow : Bool
   deriving DecidableEq, Repr
 
-/-- `DefusableReader(fp, initial_buffer_size)`: reads `max(size, 8192)` bytes (streams.py:37-47) -/
-def Reader.init (size : Nat) (s : List Nat) : Reader :=
+/-- `DefusableReader(fp, initial_buffer_size)`: reads `max(size, 8192)` bytes (streams.py:37-47);
+    `g` = the class has the growing buffer -/
+def Reader.init (g : Bool) (size : Nat) (s : List Nat) : Reader :=
   let b := if size < 8192 then 8192 else size
-  { buf := s.take b, rest := s.drop b, pos := 0 }
+  { buf := s.take b, rest := s.drop b, pos := 0, grow := g }
 
 /-- `read(size)`; `none` = read to the end (streams.py:113-142).  The underlying buffered stream
     delivers exactly the requested number of bytes unless it ends. -/
@@ -87,7 +125,7 @@ def Reader.read (r : Reader) : Option Nat → List Nat × Reader
   | some n =>
     if r.buf.length ≤ r.pos then
       let d := r.rest.take n
-      (d, { r with rest := r.rest.drop n, pos := r.pos + d.length })
+      (d, { r with buf := if r.grow then r.buf ++ d else r.buf, rest := r.rest.drop n, pos := r.pos + d.length })
     else
       let b := r.buf.drop r.pos
       if n ≤ b.length then
@@ -96,20 +134,28 @@ def Reader.read (r : Reader) : Option Nat → List Nat × Reader
       else
         let chunk := r.rest.take (n - b.length)
         let d := b ++ chunk
-        (d, { r with rest := r.rest.drop (n - b.length), pos := r.pos + d.length })
+        (d, { r with buf := if r.grow then r.buf ++ chunk else r.buf, rest := r.rest.drop (n - b.length),
+                     pos := r.pos + d.length })
   | none =>
     if r.buf.length ≤ r.pos then
-      (r.rest, { r with rest := [], pos := r.pos + r.rest.length })
+      (r.rest, { r with buf := if r.grow then r.buf ++ r.rest else r.buf, rest := [], pos := r.pos + r.rest.length })
     else
       let d := r.buf.drop r.pos ++ r.rest
-      (d, { r with rest := [], pos := r.pos + d.length })
+      (d, { r with buf := if r.grow then r.buf ++ r.rest else r.buf, rest := [], pos := r.pos + d.length })
 
 /-- `seek(p)` with whence=0 (streams.py:64-86); `none` = the OSError of the non-seekable
-    underlying stream (`fp.seek` is reached). -/
+    underlying stream (`fp.seek` is reached).  Any seek ends the growing of the buffer. -/
 def Reader.seek (r : Reader) (p : Nat) : Option Reader :=
   if r.buf.length < p then none
   else if r.buf.length < r.pos then none
-  else some { r with pos := p }
+  else some { r with pos := p, grow := false }
+
+/-- the seek of seeded change C13-3 (`elif pos > self._buffer_size` instead of `self._pos`): the second
+    test looks at the target instead of the current position.  NOT the code: kept to show which
+    guard the exactness theorem depends on (Props: `seeded_seek_breaks_exactness`). -/
+def Reader.seekSeeded (r : Reader) (p : Nat) : Option Reader :=
+  if r.buf.length < p then none
+  else some { r with pos := p, grow := false }
 
 inductive Op where
   | read (n : Option Nat)
@@ -133,6 +179,25 @@ def Reader.run : List Op → Reader → List Out
     | none => [.oserror]
     | some r' => .at p :: Reader.run ops r'
 
+/-- the state after a history of operations; `none` = an OS error occurred on the way -/
+def Reader.exec : List Op → Reader → Option Reader
+  | [], r => some r
+  | .read n :: ops, r => Reader.exec ops (r.read n).2
+  | .tell :: ops, r => Reader.exec ops r
+  | .seek p :: ops, r =>
+    match r.seek p with
+    | none => none
+    | some r' => Reader.exec ops r'
+
+/-- successive `read(n)` calls, their results concatenated: what a consumer that reads block after
+    block (the pulldom scan, the parser) is fed -/
+def Reader.readMany : List Nat → Reader → List Nat × Reader
+  | [], r => ([], r)
+  | n :: ns, r =>
+    let (d, r') := r.read (some n)
+    let (ds, r'') := Reader.readMany ns r'
+    (d ++ ds, r'')
+
 /-- the same script on a plain byte list with a cursor (what a seekable stream does);
     `lim` = how far back a seek may go once the cursor has passed it (`none`: anywhere) -/
 def absRun (s : List Nat) : List Op → Nat → List Out
@@ -151,7 +216,7 @@ inductive Outcome where
   deriving DecidableEq, Repr
 
 /-- `scanEnd` = `_pos` of the wrapper when the scan stops (the scan reads blocks until the first
-    start tag has been seen), `bufLen` = length of the initial buffer. -/
+    start tag has been seen), `bufLen` = length of the buffer at that moment. -/
 def outcome (pl : Plan) (mustRefuse : Bool) (scanEnd bufLen : Nat) : Outcome :=
   match pl with
   | .noDefuse => .parsed
@@ -159,7 +224,8 @@ def outcome (pl : Plan) (mustRefuse : Bool) (scanEnd bufLen : Nat) : Outcome :=
   | .secondOpen => if mustRefuse then .forbidden else .parsed
   | .wrapRaw                 -- sax.py:57-61 (fix 1d3fb41): io.BufferedReader(fp) is wrapped like any other
                              -- non-seekable buffered stream
-  | .wrapBuffered =>
+  | .wrapBuffered
+  | .wrapText =>
     if mustRefuse then .forbidden
     else if bufLen < scanEnd then .oserror else .parsed             -- Reader.seek 0 after the scan
   | .refuse => .oserror
@@ -188,9 +254,14 @@ def scanEndOf (total tagEnd : Nat) : Nat := min total (blocksFor tagEnd * blockS
 /-- length of the initial buffer -/
 def bufLenOf (total : Nat) : Nat := min total bufferSize
 
-/-- the outcome for a document of `total` bytes whose first start tag ends at offset `tagEnd` -/
-def outcomeDoc (pl : Plan) (mustRefuse : Bool) (total tagEnd : Nat) : Outcome :=
-  outcome pl mustRefuse (scanEndOf total tagEnd) (bufLenOf total)
+/-- length of the buffer when the scan stops: a growing reader has kept everything it read -/
+def bufLenAfter (grow : Bool) (total tagEnd : Nat) : Nat :=
+  if grow then max (bufLenOf total) (scanEndOf total tagEnd) else bufLenOf total
+
+/-- the outcome for a document of `total` units (bytes; characters on a text stream) whose first
+    start tag ends at offset `tagEnd` -/
+def outcomeDoc (v : Variant) (pl : Plan) (mustRefuse : Bool) (total tagEnd : Nat) : Outcome :=
+  outcome pl mustRefuse (scanEndOf total tagEnd) (bufLenAfter (growOf v pl) total tagEnd)
 
 /-! ### a schema build: every resource that is loaded -/
 
@@ -229,18 +300,18 @@ inductive Status where
   | raised (o : Outcome)
   deriving DecidableEq, Repr
 
-def resOutcome (m : Mode) (r : Res) : Outcome :=
-  outcomeDoc (plan m r.base r.ch) r.mustRefuse r.total r.tagEnd
+def resOutcome (v : Variant) (m : Mode) (r : Res) : Outcome :=
+  outcomeDoc v (plan v m r.base r.ch) r.mustRefuse r.total r.tagEnd
 
 /-- XMLResource.__init__ → XMLResourceManager → open() → [defuse_xml] → _parse
     (xml_resource.py:216-217, 472-495; xml_loader.py:72-77) -/
-def resEvents (m : Mode) (r : Res) : List Ev :=
+def resEvents (v : Variant) (m : Mode) (r : Res) : List Ev :=
   .opened r ::
-    ((match plan m r.base r.ch with
+    ((match plan v m r.base r.ch with
       | .noDefuse => []
       | .refuse => []
       | _ => [.scanned r]) ++
-     [if resOutcome m r = .parsed then .parsed r else .failed r (resOutcome m r)])
+     [if resOutcome v m r = .parsed then .parsed r else .failed r (resOutcome v m r)])
 
 def swallowed : Kind → Outcome → Bool
   | .incl, .oserror => true
@@ -251,14 +322,14 @@ def swallowed : Kind → Outcome → Bool
 /-- the resources are loaded depth-first in document order (schemas.py:408, loaders.py:84-170):
     a resource that was parsed loads its own inclusions/imports inside its constructor; an
     exception leaves the constructor and reaches the handler of the statement that loaded it -/
-def build (m : Mode) : Forest → List Ev × Status
+def build (v : Variant) (m : Mode) : Forest → List Ev × Status
   | .nil => ([], .ok)
   | .cons r k c s =>
     let self : List Ev × Status :=
-      if resOutcome m r = .parsed then (resEvents m r ++ (build m c).1, (build m c).2)
-      else (resEvents m r, .raised (resOutcome m r))
+      if resOutcome v m r = .parsed then (resEvents v m r ++ (build v m c).1, (build v m c).2)
+      else (resEvents v m r, .raised (resOutcome v m r))
     match self.2 with
-    | .ok => (self.1 ++ (build m s).1, (build m s).2)
-    | .raised o => if swallowed k o then (self.1 ++ (build m s).1, (build m s).2) else (self.1, .raised o)
+    | .ok => (self.1 ++ (build v m s).1, (build v m s).2)
+    | .raised o => if swallowed k o then (self.1 ++ (build v m s).1, (build v m s).2) else (self.1, .raised o)
 
 end XsVerif.Defuse
